@@ -70,7 +70,7 @@ static void child(const std::string& line, const char* outpath) {
         }
         g_ev.push_back(std::string("{\"e\":\"") + n + "\",\"t\":" + std::to_string(tid) + "}");
     });
-    vsched::set_abort_handler([&](vsched::Result& r) { write_out(outpath, r, done, N); _exit(0); });
+    vsched::set_abort_handler([&](vsched::Result& r) { write_out(outpath, r, done, N); { vf::cov_flush(); _exit(0); } });
     auto res = vsched::run([&] {
         mid = vsched::Runtime::new_object_id() + 1; cid = mid + 1;
         tlx::Semaphore sem(initial);
@@ -98,7 +98,7 @@ static void child(const std::string& line, const char* outpath) {
         for (auto& x : th) x.join();
     }, cfg);
     write_out(outpath, res, done, N);
-    _exit(0);
+    { vf::cov_flush(); _exit(0); }
 }
 
 int main(int argc, char** argv) {
